@@ -203,6 +203,8 @@ func vc06Spawn(c tmplCfg, module bool, popSize int) {
 		vAssert(ok, "C06 spawn: topology, innovation numbers, enabled and recurrence flags equal the start genome's")
 		vAssert(sameModules(snapModules(o.Genotype), m0), "C06 spawn: modules equal the start genome's")
 		vAssert(vDisjoint(o.Genotype, g), "C06 spawn: organisms share no mutable state with the start genome")
+		wfCheck(o.Genotype, "spawned organism")
+		genesisOK(o.Genotype, "spawned organism")
 	}
 	vAssert(sameSnap(snap(g), s0), "C06 spawn: the start genome is left unchanged")
 	// C03: counters are at least every number / id of the start genome (incl. control genes)
